@@ -39,12 +39,15 @@ const INPUTS = {
 const OTHER = Object.assign({}, C.PLUS_ONLY, { localVarPrefix: 'zz', comments: false, chainSourceMap: false, literals: false, telemetryVerbosity: 'OFF' })
 const DEFAULT_VERBOSITY = Object.assign({}, BASE); delete DEFAULT_VERBOSITY.telemetryVerbosity
 const EMPTY_PREFIX = Object.assign({}, BASE, { localVarPrefix: '' })
-const INSTANCES = { R1: BASE, R2: BASE, R3: NOPREFIX, R4: OTHER, R5: DEFAULT_VERBOSITY, R6: EMPTY_PREFIX }
+// the same operations in the same order as BASE, other replacement names (anything keyed by the source names alone
+// would confuse the two)
+const SAME_SRC_OTHER_DST = Object.assign({}, BASE, { csiMethods: C.RENAMED.csiMethods })
+const INSTANCES = { R1: BASE, R2: BASE, R3: NOPREFIX, R4: OTHER, R5: DEFAULT_VERBOSITY, R6: EMPTY_PREFIX, R7: SAME_SRC_OTHER_DST }
 
 // a second instance with the same configuration: the inputs that leave something behind if anything does
 const R2_INPUTS = ['mod', 'notmod', 'syntax', 'cancelled', 'chained', 'twocomments', 'long', 'ext_b', 'param_p', 'literals']
 // symbols of the depth-4 search of the thorough tier (the full alphabet is searched to depth 3)
-const CORE = new Set(['R1:mod', 'R1:notmod', 'R1:syntax', 'R1:cancelled', 'R1:chained', 'R1:notmod_map', 'R1:twocomments', 'R1:twocomments_last_missing', 'R1:literals', 'R1:long', 'R1:ext_a', 'R1:ext_b', 'R1:param_p', 'R1:manyliterals', 'R2:mod', 'R2:cancelled', 'R2:chained', 'R2:long', 'R2:ext_b', 'R3:mod', 'R4:mod', 'R4:param_p', 'R4:param_zz', 'LOG:DEBUG', 'LOG:ERROR', 'R5:mod', 'R6:mod'])
+const CORE = new Set(['R7:mod', 'R1:mod', 'R1:notmod', 'R1:syntax', 'R1:cancelled', 'R1:chained', 'R1:notmod_map', 'R1:twocomments', 'R1:twocomments_last_missing', 'R1:literals', 'R1:long', 'R1:ext_a', 'R1:ext_b', 'R1:param_p', 'R1:manyliterals', 'R2:mod', 'R2:cancelled', 'R2:chained', 'R2:long', 'R2:ext_b', 'R3:mod', 'R4:mod', 'R4:param_p', 'R4:param_zz', 'LOG:DEBUG', 'LOG:ERROR', 'R5:mod', 'R6:mod'])
 function alphabet (tier) {
   const out = []
   for (const inp of Object.keys(INPUTS)) { out.push('R1:' + inp); if (R2_INPUTS.includes(inp)) out.push('R2:' + inp) }
@@ -57,6 +60,8 @@ function alphabet (tier) {
   out.push('R5:mod'); out.push('R5:chained')
   // the empty string as prefix is a prefix like any other (not the random default)
   out.push('R6:mod'); out.push('R6:long')
+  // same source names as R1/R2, other replacement names
+  out.push('R7:mod')
   return out
 }
 
